@@ -106,7 +106,7 @@ def fasta_derived(buf, k0, r1, r2, r3, w, crlf, final_nl):
     class FF:
         name = "in.fa"
         def absolute(self): return "/d/in.fa"
-        def open(self, mode): return io.BytesIO(content)
+        def open(self, mode="rb", buffering=-1, encoding=None, errors=None, newline=None): return io.BytesIO(content)
     idx, asm = index_fasta_file(FF(), buf)
     text = fmt_agp(asm)
     ok = agp_valid(text, asm.scaffolds)
